@@ -319,10 +319,19 @@ def run(m: Model, r: Report, tier: str) -> None:
 
     # ---------------------------------------------------------------- R7
     req = m.require_function(f"{CLIENT}.UDSClient.request_unsafe")
-    hs = [n for n in walk_no_nested(req.node) if isinstance(n, ast.ExceptHandler) and n.type is not None and ast.unparse(n.type) == "ConnectionError"]
+    hs_all = [n for n in walk_no_nested(req.node) if isinstance(n, ast.ExceptHandler) and n.type is not None and ast.unparse(n.type) == "ConnectionError"]
+    # (handlers nested inside another handler protect the reconnect attempt itself, they are not the handlers of the exchange)
+    hs = [h_ for h_ in hs_all if not any(h_ is x for o_ in hs_all if o_ is not h_ for x in ast.walk(o_))]
     okc = len(hs) >= 1 and all(any(".__cause__" in ast.unparse(s) for s in h_.body) and "MissingResponse(request" in ast.unparse(h_) and
                                "await self.reconnect_unsafe()" in ast.unparse(h_) for h_ in hs)
     r.check(okc, "R7", f"{req.qualname}#connection-error-handler", "ConnectionError must become MissingResponse (with __cause__) and trigger reconnect_unsafe", loc=req.loc)
+    # a reconnect attempt that is refused (the peer is not back yet) must not end the request while retries remain: it is protected inside the handler
+    for h_ in hs:
+        for c_ in [c_ for c_ in ast.walk(h_) if isinstance(c_, ast.Call) and ast.unparse(c_.func) == "self.reconnect_unsafe"]:
+            prot = any(isinstance(t2, ast.Try) and any(c_ is x for b_ in t2.body for x in ast.walk(b_)) and
+                       any(h2.type is None or any(k in ast.unparse(h2.type) for k in ("ConnectionError", "OSError", "Exception")) for h2 in t2.handlers) for t2 in ast.walk(h_))
+            r.check(prot, "R7", f"{req.qualname}#reconnect-failure-handled@{h_.lineno - req.node.lineno}", "a refused reconnect attempt leaves request_unsafe as a raw ConnectionRefusedError "
+                    "although retries remain; the peer that accepts connections a moment later is never contacted again", loc=req.loc)
     # every wait for a reply - the first exchange of an attempt and each poll after a responsePending - is covered by such a handler
     waits_ = [n for n in walk_no_nested(req.node) if isinstance(n, ast.Await) and any(k in ast.unparse(n) for k in ("self.transport.request_unsafe(", "self._read(", "self.transport.read("))]
     uncovered = [ast.unparse(w_)[:50] for w_ in waits_ if not any(isinstance(t_, ast.Try) and any(w_ is x for b_ in t_.body for x in ast.walk(b_)) and any(h_ in t_.handlers for h_ in hs)
@@ -342,8 +351,13 @@ def run(m: Model, r: Report, tier: str) -> None:
             "and reconnects; otherwise the raw error escapes and the request is not repeated on the new connection", loc=req.loc)
     wl = m.require_function(f"{ECU}.ECU._wait_for_ecu_endless_loop")
     t = ast.unparse(wl.node)
-    r.check("except (ConnectionError, UDSException)" in t and "isinstance(e, ConnectionError) or isinstance(e.__cause__, ConnectionError)" in t and
-            "await self.reconnect()" in t, "R7", f"{wl.qualname}#reconnects", "waiting for the ECU must reconnect after a connection error (direct or as cause)", loc=wl.loc)
+    # the client reports a lost connection as MissingResponse (a UDSException) whose __cause__ is the ConnectionError: the wait loop catches UDSException and
+    # reconnects when the cause is a ConnectionError (catching ConnectionError directly as well is harmless but not needed: request_unsafe converts them all)
+    wh = [h_ for t_ in ast.walk(wl.node) if isinstance(t_, ast.Try) for h_ in t_.handlers if h_.type is not None and "UDSException" in ast.unparse(h_.type)]
+    ok_wl = len(wh) == 1 and wh[0].name is not None and any(
+        isinstance(i_, ast.If) and f"isinstance({wh[0].name}.__cause__, ConnectionError)" in ast.unparse(i_.test) and "not " not in ast.unparse(i_.test) and
+        any(isinstance(c_, ast.Call) and ast.unparse(c_.func) == "self.reconnect" for c_ in ast.walk(i_)) for i_ in ast.walk(wh[0]))
+    r.check(ok_wl, "R7", f"{wl.qualname}#reconnects", "waiting for the ECU must reconnect after a connection error (reported by the client as MissingResponse with the ConnectionError as cause)", loc=wl.loc)
     lines_read = m.require_function(f"{BASE}.LinesTransportMixin.read")
     r.check(m.has(lines_read, "binascii.unhexlify(d)") and ".strip()" in ast.unparse(lines_read.node), "R7",
             f"{lines_read.qualname}#eof-is-empty", "end-of-stream of a line transport must decode to b'' (the client's explicit end-of-stream result)", loc=lines_read.loc)
